@@ -14,7 +14,7 @@ EXACT_OPS = ["conv", "conv", "conv", "dw", "fc", "maxpool", "avgpool_valid", "ad
              "sslice", "split", "maximum", "minimum", "add_const", "mul_const", "padconv"]
 APPROX_TAIL_OPS = ["avgpool_same", "logistic", "tanh", "hswish", "lrelu", "softmax", "mean", "resize_nearest", "resize_bilinear", "abs", "tconv", "exp", "log", "sqrt", "rsqrt", "gelu", "prelu"]
 LUT_UNARY = {"exp": "EXP", "log": "LOG", "sqrt": "SQRT", "rsqrt": "RSQRT", "gelu": "GELU"}
-UNREFERENCED_NPU_OPS = ["sqdiff", "sqdiff", "shape"]  # accelerated operators without a reference kernel here: generated where values are not compared (C02/C03/C12/C13)
+UNREFERENCED_NPU_OPS = ["sqdiff", "shape"]  # accelerated operators without a reference kernel here: generated where values are not compared (C02/C03/C12/C13)
 CPU_OPS = ["custom", "dequant_quant", "float_chain", "gather", "tile", "argmax_tail", "unsupported_conv"]
 
 
@@ -740,7 +740,7 @@ def network(profile="exact", max_ops=6, dtypes=("int8", "int8", "int8", "uint8",
             menu = list(EXACT_OPS)
             n_ops = draw(st.integers(1, max_ops))
             approx_tail = draw(st.sampled_from(["avgpool_same", "logistic", "tanh", "hswish", "lrelu", "mean", "resize_nearest", "avgpool_same", "tanh", "tconv", "tconv", "resize_bilinear",
-                                                    "exp", "log", "sqrt", "rsqrt", "gelu", "prelu", "prelu", "abs"]))
+                                                    "exp", "log", "sqrt", "rsqrt", "gelu", "prelu", "prelu", "abs", "sqdiff"]))
             if os.environ.get("VERIF_FORCE_TAIL"):  # exploration aid (never set by a registered command): concentrate a run on one tail operator
                 approx_tail = os.environ["VERIF_FORCE_TAIL"]
         if profile == "exact16":  # exact-class operators whose 16-bit reference is pinned down (no ADD/SUB: their int16 reference depends on the pot_scale option)
